@@ -157,7 +157,8 @@ pub fn write_float_negative_exponent<F: DragonboxFloat, const FORMAT: u128>(
 
     // Truncate and round the significant digits.
     debug_assert!(cursor > 0, "underflowed our digits");
-    let (digit_count, carried) = shared::truncate_and_round_decimal(digits, digit_count, options);
+    let (mut digit_count, carried) =
+        shared::truncate_and_round_decimal(digits, digit_count, options);
 
     // Handle any trailing digits.
     let mut trimmed = false;
@@ -172,6 +173,8 @@ pub fn write_float_negative_exponent<F: DragonboxFloat, const FORMAT: u128>(
             bytes[1] = decimal_point;
             bytes[2] = b'0';
             cursor = 3;
+            // The zero after the decimal point is a written digit too.
+            digit_count += 1;
         }
     } else if carried {
         // Carried, so we need to remove 1 zero before our digits.
